@@ -697,7 +697,9 @@ func (cat *SQLCat) addTable(name, text string) {
 		switch {
 		case strings.HasPrefix(U, "PRIMARY KEY"), strings.HasPrefix(U, "UNIQUE"):
 			t.Uniques = append(t.Uniques, colsIn(it))
-		case strings.HasPrefix(U, "FOREIGN KEY"), strings.HasPrefix(U, "CONSTRAINT"), strings.HasPrefix(U, "CHECK"):
+		case strings.HasPrefix(U, "CHECK"):
+			t.Checks[fmt.Sprintf("(table #%d)", len(t.Checks)+1)] = oneLine(it)
+		case strings.HasPrefix(U, "FOREIGN KEY"), strings.HasPrefix(U, "CONSTRAINT"):
 		default:
 			f := strings.Fields(it)
 			if len(f) == 0 {
